@@ -18,7 +18,8 @@ RULE = ("Real client and server application stacks (request submitted directly t
         "no transaction or timer. Non-trivial: >= 1 fault hit a frame of the transaction and (segmentation in some direction or "
         ">= 1 retransmission observed). Distinct by (configuration, plan)."
         " Also: an unsegmented request is transmitted at most retries+1 times and decided by (retries+1) x APDU timeout; every single drop/delay followed by every later silence point on segmented configurations."
-        " The peer's I-Am recorded while the transaction is under way (know_at).")
+        " The peer's I-Am recorded while the transaction is under way (know_at)."
+        " One reduced copy of a generated shard runs with the library's debug tracing switched on (label tracing-on).")
 ASSUMPTIONS = [
     "T_max = (retries+1) * (Tout + (segments+4) * (retries+1) * 4 * Tseg) + Tapp + think + injected delays + 30 s (deliberately generous)",
     "an abort is a legal outcome here; whether a single fault must be survived is C05",
